@@ -1,7 +1,8 @@
-From MV Require Import Lib.ExtractBase C08.Model C08.ModelConc.
+From MV Require Import Lib.ExtractBase C08.Model C08.ModelConc C08.ModelAttach.
 From Coq Require Import ExtrOcamlBasic.
 Extraction Language OCaml.
-Extraction "c08_model" force_types hinit step run cal_cachelines drained_fit in_known_class
+Extraction "c08_model" force_types hinit hopen open_sizes step run cal_cachelines drained_fit in_known_class
   hr h_alloc h_fetched wcur rcur crem n_cl
-  cinit cstep mo_sufficient c_committed c_unread c_delivered c_uncov c_overlap c_w c_r c_wdone
-  e_op LExit OLoad is_acq.
+  cinit cstep mo_sufficient c_committed c_unread c_delivered c_uncov c_overlap c_rrace c_w c_r c_wdone
+  e_op LExit OLoad is_acq
+  ainit astep mo_attach_sufficient a_got a_uncov a_apc a_cpc a_geo.
